@@ -20,6 +20,8 @@ import (
 // Template slots: {C} comment decoy at statement start, {I} select-list decoy, {P} the authorised table
 // (db1.cpu without header, cpu with one), {A} alias of the authorised table (default " a"), {T} the
 // adversarial table-position filler, {ONTAIL} decoy appended to an ON condition, {POST} trailing decoy.
+// {A0} is an alias slot (default empty) that only the bareword decoys fill: the alias of an authorised table
+// that precedes a later UNION branch / subquery holding {T}.
 type skeleton struct {
 	Name string
 	Tmpl string
@@ -34,7 +36,7 @@ func buildSkeletons() []skeleton {
 		{Name: "cte", Tmpl: "{C}WITH c AS (SELECT {I}* FROM {T}) SELECT * FROM c{POST}", Core: true},
 		{Name: "cte-shadows-measurement", Tmpl: "{C}WITH cpu AS (SELECT {I}* FROM {T}) SELECT * FROM cpu{POST}", Base: "cte"},
 		{Name: "subquery-from", Tmpl: "{C}SELECT * FROM (SELECT {I}* FROM {T}) s{POST}", Core: true},
-		{Name: "subquery-where-in", Tmpl: "{C}SELECT {I}* FROM {P} WHERE host IN (SELECT host FROM {T}){POST}", Core: true},
+		{Name: "subquery-where-in", Tmpl: "{C}SELECT {I}* FROM {P}{A0} WHERE host IN (SELECT host FROM {T}){POST}", Core: true},
 		{Name: "subquery-where-exists", Tmpl: "{C}SELECT {I}* FROM {P} WHERE EXISTS (SELECT 1 FROM {T}){POST}", Base: "subquery-where-in"},
 		{Name: "subquery-where-scalar", Tmpl: "{C}SELECT {I}* FROM {P} WHERE (SELECT count(*) FROM {T}) >= 0{POST}", Base: "subquery-where-in"},
 		{Name: "subquery-select-scalar", Tmpl: "{C}SELECT {I}(SELECT count(*) FROM {T}) AS n{POST}"},
@@ -42,7 +44,7 @@ func buildSkeletons() []skeleton {
 		{Name: "comma-join-first", Tmpl: "{C}SELECT {I}* FROM {T} a, {P} b{POST}", Base: "comma-join"},
 		{Name: "comma-join-after-subquery", Tmpl: "{C}SELECT {I}* FROM (SELECT 1) a, {T} b{POST}", Base: "comma-join"},
 		{Name: "comma-join-after-on", Tmpl: "{C}SELECT {I}* FROM {P} a JOIN {P} c ON a.host = c.host{ONTAIL}, {T} b{POST}", Core: true, Base: "comma-join"},
-		{Name: "union-all", Tmpl: "{C}SELECT {I}* FROM {P} UNION ALL SELECT * FROM {T}{POST}", Core: true},
+		{Name: "union-all", Tmpl: "{C}SELECT {I}* FROM {P}{A0} UNION ALL SELECT * FROM {T}{POST}", Core: true},
 		{Name: "union-all-first", Tmpl: "{C}SELECT {I}* FROM {T} UNION ALL SELECT * FROM {P}{POST}", Base: "union-all"},
 		{Name: "except", Tmpl: "{C}SELECT {I}* FROM {T} EXCEPT SELECT * FROM {P}{POST}", Base: "union-all"},
 	}
@@ -104,6 +106,7 @@ type filler struct {
 	Base   int    // resolved index of BaseK, -1 when none
 	Base2K string // a second simpler filler, tried when Base does not reproduce the violation
 	Base2  int
+	BWOK   bool // takes part in the product with the bareword decoys
 }
 
 const (
@@ -365,6 +368,15 @@ func buildFillers(catalog []string) []filler {
 	add("sqltext:json_execute_serialized_sql", "fn-sqltext:json_execute_serialized_sql",
 		"json_execute_serialized_sql(json_serialize_sql("+sqQuote("SELECT * FROM read_parquet("+sqQuote(p0)+")")+"))", "", true)
 
+	for i := range f {
+		k := f[i].Key
+		f[i].BWOK = strings.HasPrefix(k, "path:") || strings.HasPrefix(k, "sqltext:")
+		for _, fn := range coreFns {
+			if strings.HasPrefix(k, "fn:"+fn+":") {
+				f[i].BWOK = true
+			}
+		}
+	}
 	idx := map[string]int{}
 	for i := range f {
 		if _, dup := idx[f[i].Key]; dup {
@@ -435,6 +447,7 @@ type decoy struct {
 	Base   string   // name of a sibling decoy of the same kind tried when minimising
 	ASet   bool     // A is meaningful even when empty
 	AltI   string   // table-alias decoys: the select-list decoy that plays the same trick (tried when minimising)
+	BW     bool     // bareword decoy: combined with the path-literal, named-file-function and SQL-text fillers only
 }
 
 func buildDecoys() []decoy {
@@ -502,7 +515,77 @@ func buildDecoys() []decoy {
 	for _, kw := range []string{"qualify", "fetch", "window"} { // terminator keywords spelled bare (rejected by DuckDB's grammar when reserved)
 		d = append(d, decoy{Name: "table-alias-bare-" + kw, A: " " + kw})
 	}
+	d = append(d, barewordDecoys()...)
 	return d
+}
+
+// barewords lists unquoted identifiers whose bytes look like the start of a quoting construct to a lexer
+// that loses track of where an identifier ends: every arrangement of `$` and a letter after a leading
+// letter up to 5 bytes, digits next to `$`, longer tag-shaped forms, and identifiers ending in a
+// string-prefix letter (e E u x b) directly followed by a quote-free token. For DuckDB each is ONE identifier.
+func barewords() (all []string, core map[string]bool) {
+	seen := map[string]bool{}
+	add := func(w string) {
+		if !seen[w] {
+			seen[w] = true
+			all = append(all, w)
+		}
+	}
+	add("a$$x$$") // canonical: letter, `$$`, tag-shaped run, `$$`
+	for k := 1; k <= 4; k++ {
+		for n := 0; n < 1<<k; n++ {
+			w := "a"
+			for b := k - 1; b >= 0; b-- {
+				if n>>b&1 == 1 {
+					w += "$"
+				} else {
+					w += "x"
+				}
+			}
+			if strings.Contains(w, "$") {
+				add(w)
+			}
+		}
+	}
+	for _, w := range []string{"a$$x$$b", "a$x$x$", "a$$xy$$", "a$_$", "a$1", "a1$", "a$$1$$", "a1$$x$$", "a$$x1$$", "cost$5$",
+		"ae", "aE", "au", "ax", "ab", "aU", "aX", "aB", "an", "aN", "plain"} {
+		add(w)
+	}
+	core = map[string]bool{"a$$x$$": true, "a$x": true, "a$$": true, "a$x$": true, "a$$$$": true, "a$$x$$b": true, "a1$$x$$": true, "a$1": true,
+		"aE": true, "ax": true, "plain": true}
+	return all, core
+}
+
+func barewordDecoys() []decoy {
+	words, core := barewords()
+	slots := []struct {
+		k  string
+		mk func(w string) decoy
+	}{
+		{"select-alias", func(w string) decoy { return decoy{I: "1 AS " + w + ", "} }},
+		{"select-implicit-alias", func(w string) decoy { return decoy{I: "1 " + w + ", "} }},
+		{"table-alias", func(w string) decoy { return decoy{A: " " + w} }},
+		{"table-as-alias", func(w string) decoy { return decoy{A: " AS " + w} }},
+		{"cte-name", func(w string) decoy { return decoy{C: "WITH " + w + " AS (SELECT 1) "} }},
+	}
+	var out []decoy
+	for _, sl := range slots {
+		for _, w := range words {
+			d := sl.mk(w)
+			d.Name = "bareword:" + sl.k + ":" + w
+			d.BW = true
+			d.Core = core[w]
+			// minimisation: the same bareword as a select-list alias, then the canonical bareword in the same slot
+			if sl.k != "select-alias" {
+				d.AltI = "bareword:select-alias:" + w
+			}
+			if w != "a$$x$$" {
+				d.Base = "bareword:" + sl.k + ":a$$x$$"
+			}
+			out = append(out, d)
+		}
+	}
+	return out
 }
 
 var headers = []string{"", "db1", "db2"}
@@ -517,7 +600,10 @@ func render(sk *skeleton, f *filler, d *decoy, hdr string) (request, bool) {
 	if !need(d.C, "{C}") || !need(d.I, "{I}") || !need(d.OnTail, "{ONTAIL}") || !need(d.Post, "{POST}") {
 		return request{}, false
 	}
-	if (d.A != "" || d.ASet) && !strings.Contains(t, "{A}") {
+	if (d.A != "" || d.ASet) && !strings.Contains(t, "{A}") && !(d.BW && strings.Contains(t, "{A0}")) {
+		return request{}, false
+	}
+	if d.BW && !f.BWOK {
 		return request{}, false
 	}
 	if sk.Get && (d.Name != "none" || hdr != "") {
@@ -537,7 +623,11 @@ func render(sk *skeleton, f *filler, d *decoy, hdr string) (request, bool) {
 		}
 		t = strings.Replace(t, " {T}", "{T}", 1)
 	}
-	sqlText := strings.NewReplacer("{C}", d.C, "{I}", d.I, "{P}", p, "{A}", alias, "{T}", f.Text, "{ONTAIL}", d.OnTail, "{POST}", d.Post).Replace(t)
+	alias0 := ""
+	if d.BW {
+		alias0 = d.A
+	}
+	sqlText := strings.NewReplacer("{A0}", alias0, "{C}", d.C, "{I}", d.I, "{P}", p, "{A}", alias, "{T}", f.Text, "{ONTAIL}", d.OnTail, "{POST}", d.Post).Replace(t)
 	if sk.Get {
 		return request{Method: "GET", Path: "/api/v1/query/cpu?database=db1", Where: sqlText}, true
 	}
